@@ -301,6 +301,28 @@ def points_into_string(fn, nid, d):
     return False
 
 
+def resolve_alias(fn, nid, depth=3):
+    """Look through `const auto n = <expr>;` : the (cast-stripped) node an expression denotes, following locals that are
+    initialised once and never assigned."""
+    n = scn(fn, nid)
+    hops = 0
+    while n is not None and n.get('k') == 'var' and n.get('vk') == 'local' and hops < depth:
+        hops += 1
+        d = n['d']
+        if any(m.get('k') == 'assign' and E.carrier_of(fn, m['lhs']) == ('var', d) for m in fn.all_nodes()):
+            break
+        if any(m.get('k') == 'unop' and m.get('op') in ('++', '--', '&') and E.carrier_of(fn, m['sub']) == ('var', d) for m in fn.all_nodes()):
+            break
+        i = decl_init(fn, d)
+        if i is None:
+            break
+        nn = scn(fn, i)
+        if nn is None:
+            break
+        n = nn
+    return n
+
+
 def count_resizes(fn, call, pull, X):
     """Classify the std::string::resize calls on the returned local X that can execute after the pull call.
     -> (valid, unknown): valid = resize to exactly the number of bytes the library produced; unknown = mentions the count in a
@@ -327,10 +349,15 @@ def count_resizes(fn, call, pull, X):
         if pull.count == 'ret':
             if a.get('id') == call['id'] or (cv is not None and a.get('k') == 'var' and a.get('d') == cv):
                 valid.append(n)
-            elif cv is not None and cv in vars_in(fn, n['args'][0]):
+                continue
+            a2 = resolve_alias(fn, n['args'][0])
+            if a2 is not None and (a2.get('id') == call['id'] or (cv is not None and a2.get('k') == 'var' and a2.get('d') == cv)):
+                valid.append(n)
+            elif cv is not None and cv in data_sources(fn, n['args'][0]):
                 unknown.append(n)
             continue
-        mentions = any(is_stream_member(fn, x, sq, {'next_out', 'avail_out', 'total_out'}) for x in fn.subtree(n['args'][0]))
+        a = resolve_alias(fn, n['args'][0])
+        mentions = any(is_stream_member(fn, x, sq, {'next_out', 'avail_out', 'total_out'}) for x in fn.subtree(a['id']))
         if not mentions:
             continue
         ok = False
@@ -530,3 +557,33 @@ def data_sources(fn, nid, depth=4):
                 if i is not None:
                     work.append((i, d + 1))
     return out
+
+
+def handle_arg_is(fn, call, fq):
+    """one argument of the call is the this-member fq, or a local initialised from it (`auto h = m_handle; m_handle = nullptr; close(h)`)."""
+    for a in call.get('args', []) or []:
+        if a is None:
+            continue
+        rv = fn.root_var(a)
+        if rv is not None and rv[:2] == ('field', fq):
+            return True
+        n = resolve_alias(fn, a)
+        if n is not None and n.get('k') == 'member' and n.get('q') == fq and fn.is_this_member(n['id']):
+            return True
+    return False
+
+
+def helper_reaches(fb, fn, n, names=(), members=()):
+    """call node n goes to a library function with a body that (transitively) calls one of the extern functions `names` or reads a
+    member called one of `members`."""
+    from .c08_util import reaches_extern
+    if n.get('k') != 'call' or E.is_extern_c(n) or 'u' not in n or not n.get('q', '').startswith('osmium::'):
+        return False
+    for g in fb.by_usr.get(n['u'], []):
+        if names and reaches_extern(fb, g, set(names)):
+            return True
+        if members:
+            for h in E.closure_fns(fb, [g], depth=3):
+                if any(x.get('k') == 'member' and x.get('name') in members for x in h.all_nodes()):
+                    return True
+    return False
